@@ -28,17 +28,17 @@ PostOK(j) ==
 TInit == Init /\ l = 1
 Ev(e) == l <= Len(Tr) /\ Tr[l].ev = e /\ l' = l + 1
 J == Tr[l]
+\* a trace starts with two freshly constructed agents: nothing gathered, nothing signalled, Dial/Accept not yet called
 ResetStep ==
-  /\ role' = InitRole /\ gen' = [a \in Agents |-> 1] /\ rgen' = [a \in Agents |-> 1]
-  /\ locals' = Loc /\ remotes' = PreSignal
-  /\ LET r == [a \in Agents |-> AddAllRemotes(<<>>, J.idBase[a], Loc[a], PreSignal[a], 1, InitRole[a] = "controlling")] IN
-       pairs' = [a \in Agents |-> r[a].ps] /\ nextId' = [a \in Agents |-> r[a].id]
+  /\ role' = [a \in Agents |-> "controlled"] /\ gen' = [a \in Agents |-> 1] /\ rgen' = [a \in Agents |-> 0]
+  /\ locals' = [a \in Agents |-> <<>>] /\ remotes' = [a \in Agents |-> <<>>]
+  /\ pairs' = [a \in Agents |-> <<>>] /\ nextId' = [a \in Agents |-> J.idBase[a]]
   /\ pend' = [a \in Agents |-> {}] /\ sel' = [a \in Agents |-> 0] /\ nomPair' = [a \in Agents |-> 0]
-  /\ conn' = [a \in Agents |-> "Checking"] /\ nextTid' = Tid0
+  /\ conn' = [a \in Agents |-> "New"] /\ nextTid' = Tid0
   /\ net' = EmptyBag /\ ticks' = [a \in Agents |-> 0] /\ loss' = 0 /\ dup' = 0 /\ inj' = 0 /\ rst' = 0
   /\ out' = EmptyBag /\ answered' = [a \in Agents |-> {}]
   /\ now' = 0 /\ lastRx' = [a \in Agents |-> Never] /\ selStart' = [a \in Agents |-> 0] /\ chkStart' = [a \in Agents |-> 0]
-  /\ lastTick' = [a \in Agents |-> "Unknown"] /\ gath' = [a \in Agents |-> "complete"]
+  /\ lastTick' = [a \in Agents |-> "Unknown"] /\ gath' = [a \in Agents |-> "new"]
   /\ lastNom' = [a \in Agents |-> 0] /\ nomGen' = [a \in Agents |-> 0] /\ issued' = <<>>
   /\ dnet' = EmptyBag /\ rd' = NoReads /\ wr' = 0
 TNext == \/ Ev("Tick") /\ Tick(J.ag) /\ DataIdle /\ PostOK(J)
@@ -51,6 +51,8 @@ TNext == \/ Ev("Tick") /\ Tick(J.ag) /\ DataIdle /\ PostOK(J)
          \/ Ev("Renominate") /\ Renominate(J.ag, J.k) /\ DataIdle /\ PostOK(J)
          \/ Ev("Restart") /\ Restart(J.ag) /\ DataIdle /\ PostOK(J)
          \/ Ev("Gather") /\ Gather(J.ag) /\ DataIdle /\ PostOK(J)
+         \/ Ev("Start") /\ Start(J.ag) /\ DataIdle /\ PostOK(J)
+         \/ Ev("Close") /\ Close(J.ag) /\ DataIdle /\ PostOK(J)
          \/ Ev("SetRemoteCreds") /\ SetRemoteCreds(J.ag) /\ DataIdle /\ PostOK(J)
          \/ Ev("AddRemote") /\ AddRemote(J.ag, [addr |-> J.c.addr, typ |-> J.c.typ, prio |-> J.c.prio]) /\ DataIdle /\ PostOK(J)
          \/ Ev("Write") /\ (IF J.stun THEN WriteStun(J.ag) ELSE Write(J.ag, J.pid)) /\ PostOK(J)
